@@ -49,6 +49,15 @@ fn one_pattern(r: usize, c: usize, mask: &[Vec<bool>], rng: &mut Rng, adjoint: b
     if adjoint {
         must(&format!("adjoint {}", tag), || (yv.dot(&s.multiply(&xv)), s.transpose_multiply(&yv).dot(&xv)), |(l, rr)| { prove_eq(&format!("<y, A x> = <A^T y, x> {}", tag), l, rr); });
         let w = Sym::var("w");
+        // history: transpose, then scale, then products (the transposed matrix must be a fully valid operand)
+        must(&format!("transpose;scale {}", tag), || { let mut t = s.transpose(); t.scale(&w); (t.multiply(&yv), t.transpose_multiply(&xv)) }, |(v1, v2)| {
+            let ok = v1.size() == c && v2.size() == r;
+            prove(&format!("transpose;scale then products: lengths {}", tag), if ok { B::True } else { B::False });
+            if ok {
+                for j in 0..c { prove_eq(&format!("(w A^T) y = w (A^T y) row {} {}", j, tag), v1[j], w * aty[j]); }
+                for i in 0..r { prove_eq(&format!("(w A^T)^T x = w (A x) row {} {}", i, tag), v2[i], w * ax[i]); }
+            }
+        });
         must(&format!("scale {}", tag), || { let mut t = Sparse::from_vecs(s.rows, s.cols, s.val.clone(), s.row_index.clone(), s.col_start.clone()); t.scale(&w); (t.multiply(&xv), t.transpose_multiply(&yv)) }, |(v1, v2)| {
             let ok = v1.size() == r && v2.size() == c;
             prove(&format!("scale then products: lengths {}", tag), if ok { B::True } else { B::False });
